@@ -473,6 +473,14 @@ func (e *Exec) ccall(st *State, x *ast.CallExpr, env *cenv) Val {
 				e.fail(x.Pos(), "contract: deref of non-pointer")
 			}
 			return e.deref(st, p, pt, x.Pos())
+		case "fresh":
+			// fresh(x): the (slice or boxed slice) value x shares no backing array with a parameter or a heap field,
+			// as far as the origin tracking can tell (a static over-approximation of aliasing: false means "may alias")
+			v := arg(0)
+			if len(v.Orig) == 0 {
+				return Val{T: True, GT: boolT}
+			}
+			return Val{T: False, GT: boolT}
 		case "inmaprange":
 			// inmaprange(): the clause is being evaluated inside the body of a loop that ranges over a map (whose
 			// iteration order Go randomises)
